@@ -69,8 +69,13 @@ class Shard():
         if self._shard_writer is None:
             raise ValueError("Closing a shard which has not been open.")
 
-        self._shard_writer.close()
+        # A failed close is final. The writer is dropped first so that a second
+        # attempt (`DatasetFiller.__exit__` while the error propagates) cannot
+        # rewrite the file which the abandoned first attempt may still flush
+        # into.
+        shard_writer: ShardWriterBase = self._shard_writer
         self._shard_writer = None
+        shard_writer.close()
 
         # Compute sha256 checksum.
         self.shard_info.file_infos[
